@@ -104,7 +104,10 @@ Next ==
 
 Init == \E b \in 1..Len(Bases) : base = b /\ field = Bases[b].f /\ hist = <<>>
 
-Bound == Len(hist) <= Depth /\ Len(field) <= MaxE /\ \A i \in 1..Len(field) : Len(field[i]) <= MaxR
+\* histories from the part-subset x inner-layout bases stay one step long (there are 72 of them): the deeper histories
+\* start from the other bases
+NPart == Cardinality(PartBases)
+Bound == Len(hist) <= (IF base <= NPart THEN 1 ELSE Depth) /\ Len(field) <= MaxE /\ \A i \in 1..Len(field) : Len(field[i]) <= MaxR
 
 \* the list model never holds an empty entry (removing the last alternative removes the entry)
 NoEmptyEntry == \A i \in 1..Len(field) : field[i] # <<>>
